@@ -11,6 +11,8 @@ for d in sorted(os.listdir('/verif/seeded')):
     if len(s) > 230:
         s = s[:227] + '...'
     det = ', '.join(m.get('detected_by') or []) or '—'
+    if m.get('obsolete'):
+        det += ' (no longer applies to the current tree, see its meta.json)'
     missed = 'yes' if m.get('owner_check_missed_when_first_tried') else ''
     rows.append(f"| {d} | {s} | {det} | {missed} |")
 print("| id | change | checks that fire (quick, seed 0) | owner missed it at first |")
